@@ -14,6 +14,7 @@ HERE = os.path.dirname(os.path.dirname(os.path.abspath(__file__)))   # the check
 if HERE not in sys.path:
     sys.path.insert(0, HERE)
 
+OUTDIR = os.environ.get('RTVERIF_OUT') or HERE   # developer tools (mutation runs) send evidence/replays elsewhere
 OUT = sys.stdout            # harness output; rtamt's own prints are sent to /dev/null
 CHECK_VERSION = 1
 
@@ -277,7 +278,7 @@ def main(argv=None):
             crashed.append(traceback.format_exc())
             results = []
     else:
-        work = os.path.join(HERE, '.work')
+        work = os.path.join(OUTDIR, '.work')
         os.makedirs(work, exist_ok=True)
         procs = []
         for k in range(nshards):
@@ -316,7 +317,7 @@ def finish(pid, tier, seed, m, crashed, timeouts, nshards, wall):
     findings = [f for f in load_findings() if f['property'] == pid]
     open_keys = dict((f['key'], f) for f in findings if f.get('status') == 'open')
     new_viol, known_hits = [], {}
-    os.makedirs(os.path.join(HERE, 'replays', pid), exist_ok=True)
+    os.makedirs(os.path.join(OUTDIR, 'replays', pid), exist_ok=True)
     for key, v in sorted(m['violations'].items()):
         kk = v.get('known_key')
         if kk and kk in open_keys:
@@ -326,7 +327,7 @@ def finish(pid, tier, seed, m, crashed, timeouts, nshards, wall):
                 pid, kk, open_keys[kk].get('short', open_keys[kk].get('mechanism', ''))[:160], v['count'], w['msg'][:300]))
         else:
             for w in v['witnesses'][:1]:
-                rp = os.path.join(HERE, 'replays', pid, '%s.json' % digest(w))
+                rp = os.path.join(OUTDIR, 'replays', pid, '%s.json' % digest(w))
                 with open(rp, 'w') as fh:
                     json.dump({'property': pid, 'check_version': CHECK_VERSION, 'mechanism': v['mech'],
                                'attribution': kk, 'msg': w['msg'], 'case': w['case']}, fh, indent=1)
@@ -373,8 +374,8 @@ def finish(pid, tier, seed, m, crashed, timeouts, nshards, wall):
     }
     ev = {'property_id': pid, 'tier': tier, 'seed': seed, 'level': 'exploration', 'coverage': cov,
           'assumptions': prop.assumptions, 'wall_s': round(wall, 2), 'violations': len(new_viol)}
-    os.makedirs(os.path.join(HERE, 'evidence'), exist_ok=True)
-    with open(os.path.join(HERE, 'evidence', '%s.json' % pid), 'w') as fh:
+    os.makedirs(os.path.join(OUTDIR, 'evidence'), exist_ok=True)
+    with open(os.path.join(OUTDIR, 'evidence', '%s.json' % pid), 'w') as fh:
         json.dump(jsonable(ev), fh, indent=1, sort_keys=True)
 
     emit('SUMMARY property=%s tier=%s seed=%d evaluations=%d nontrivial=%d known=%s new=%d wall=%.1fs' % (
